@@ -33,6 +33,11 @@ def cases(prop, shard, nshards, seed, tier, want_models=False):
                 continue
             if mine():
                 yield {"family": "hostile-" + hops[0]["op"], "file": fn, "ops": hops}
+    if prop == "C03":
+        # different nucleotides that share author chain, number and insertion code (labels differ)
+        for fn in ("tests/4gqj-assembly1.cif", "tests/4WTI_1_T-P.cif", "tests/1DFU_1_M-N.cif", "tests/184D.cif", "tests/1JJP.cif"):
+            if mine():
+                yield {"family": "hostile-auth-collide", "file": fn, "ops": [{"op": "auth-collide"}]}
     nvar = 200 if tier == "quick" else 4000
     for i in range(nvar):
         if not mine():
